@@ -16,6 +16,16 @@ CHECKS = {
         design="6/C16"),
 }
 
+CHECKS["C02"] = dict(
+    level="model_checking",
+    text="TLC enumerates every well-formed catalogue within the constants (field boundary classes x all 3-file name/directory/lock "
+         "orderings), proves the implementation-shaped field extraction and sign extension equal the documented format, and every "
+         "catalogue is written to Acorn/Watford/Opus discs; info, cat (4 ui styles, 3 current directories), show-titles and .inf "
+         "observations of the real dfs are judged by TraceCatalog.tla's requirement operators (RShown, RCatOrderOK, RTitle, CrcXmodem).",
+    note="Bounded field classes (not all 2^16 low words); output projections in lib/discs.py are trusted; names restricted to printable non-blank ASCII.",
+    technique="TLA+ model checking (TLC) + behaviour replay + TLC trace validation",
+    design="6/C02")
+
 PENDING_REASON = "check not built yet in this session (work in progress; design in DESIGN.md section 6)"
 
 
